@@ -3,6 +3,7 @@
 #include "model.hpp"
 
 #include <algorithm>
+#include <csetjmp>
 #include <csignal>
 #include <ctime>
 #include <map>
@@ -149,8 +150,22 @@ static void crash_report(const char* why)
         g_cur_hist.size());
     (void)!write(1, b, n);
 }
+// Crash containment (plain flavour): a fatal signal or abort raised while a history executes jumps
+// back into exec(); the transition is recorded as a memory-safety failure and the search goes on, so a
+// crash in one corner of a broken tree does not hide what the property under check does elsewhere.
+static sigjmp_buf            g_jmp;
+static volatile sig_atomic_t g_in_exec = 0;
+static volatile sig_atomic_t g_crash_sig = 0;
+static long                  g_contained = 0;
 static void on_signal(int sig)
 {
+    if (g_in_exec && g_contained < 2000)
+    {
+        g_in_exec   = 0;
+        g_crash_sig = sig;
+        g_contained++;
+        siglongjmp(g_jmp, 1);
+    }
     static volatile sig_atomic_t in = 0;
     if (in)
         _exit(4);
@@ -194,7 +209,7 @@ struct Engine
     std::vector<Node>                  nodes;
     std::unordered_set<H128, H128H>    seen;
     std::unordered_map<uint64_t, int>  seen_depth; // only filled up to sweep depth
-    long                               transitions{0}, states{0}, foreign{0}, unattr{0}, execs{0}, adopted{0};
+    long                               transitions{0}, states{0}, foreign{0}, unattr{0}, execs{0}, adopted{0}, crashes_contained{0};
     int                                max_depth{0};
     bool                               fixpoint{false}, capped{false};
     double                             t0;
@@ -223,6 +238,7 @@ struct Engine
         Scan        sc;
         std::string dump;
         bool        val_ok{true};
+        bool        crashed{false};
         std::string val_msg;
     };
 
@@ -236,6 +252,11 @@ struct Engine
 
     Tr exec(const std::vector<Op>& hist, const Op* op) { return exec_cfg(cfg, hist, op); }
 
+    static bool& containment()
+    {
+        static bool on = false;
+        return on;
+    }
     Tr exec_cfg(const Config& xcfg, const std::vector<Op>& hist, const Op* op)
     {
         Tr t;
@@ -245,6 +266,28 @@ struct Engine
         alarm(60);
         g_now_ns        = BASE_NS;
         ValStats before = g_vs;
+        if (containment())
+        {
+            if (sigsetjmp(g_jmp, 1) != 0)
+            {
+                // came back from a fatal signal: abandon (leak) the container of that execution
+                sigset_t ss;
+                sigemptyset(&ss);
+                sigaddset(&ss, SIGSEGV);
+                sigaddset(&ss, SIGABRT);
+                sigaddset(&ss, SIGALRM);
+                sigaddset(&ss, SIGBUS);
+                sigprocmask(SIG_UNBLOCK, &ss, nullptr);
+                g_vs      = before;
+                t         = Tr();
+                t.val_ok  = false;
+                t.crashed = true;
+                t.val_msg = g_crash_sig == SIGALRM ? "the call sequence hangs (watchdog)" : g_crash_sig == SIGABRT ? "the call sequence aborts (assertion / checked iterator)" : "the call sequence dies with a fatal signal (invalid memory access)";
+                execs++;
+                return t;
+            }
+            g_in_exec = 1;
+        }
         {
             A ad(xcfg);
             for (auto& o : hist)
@@ -255,6 +298,7 @@ struct Engine
             t.dump = ad.dump();
             t.sc   = ad.scan();
         }
+        g_in_exec = 0;
         execs++;
         if (g_vs.live != before.live || g_vs.bad_destroy != before.bad_destroy || g_vs.bad_use != before.bad_use)
         {
@@ -292,7 +336,7 @@ struct Engine
         h.push_back(op);
         // replay twice before reporting: must be deterministic
         Tr t1 = exec(hist, &op), t2 = exec(hist, &op);
-        if (t1.r != t2.r || t1.dump != t2.dump)
+        if (!t1.crashed && !t2.crashed && (t1.r != t2.r || t1.dump != t2.dump))
         {
             fprintf(stderr, "HARNESS ERROR: nondeterministic replay of %s\n", hist_str(h).c_str());
             exit(3);
@@ -673,6 +717,15 @@ struct Engine
                 continue;
             vs.clear();
             Model post = base;
+            if (t.crashed)
+            {
+                crashes_contained++;
+                if (report & P(8))
+                    record_violation(hist, op, P(8), t.val_msg);
+                else
+                    foreign++;
+                continue;
+            }
             SP::step(post, cfg, a.kn, op, t.r, pr, t.ob, t.sc, vs);
             if (!t.val_ok)
                 vs.push_back(Viol{P(8), t.val_msg});
@@ -1132,7 +1185,7 @@ struct Engine
         printf(
             "\"states\":%ld,\"transitions\":%ld,\"executions\":%ld,\"max_depth\":%d,\"fixpoint\":%s,\"capped\":%s,"
             "\"sweep_depth\":%d,\"sweep_seqs\":%ld,\"foreign_pruned\":%ld,\"unattributed_pruned\":%ld,"
-            "\"distinct_outcomes\":%zu,\"c15_groups\":%ld,\"wall_s\":%.2f,",
+            "\"distinct_outcomes\":%zu,\"c15_groups\":%ld,\"crashes_contained\":%ld,\"wall_s\":%.2f,",
             states,
             transitions,
             execs,
@@ -1145,6 +1198,7 @@ struct Engine
             unattr,
             outcomes.size(),
             c15_groups,
+            crashes_contained,
             wall() - t0);
         printf("\"samples\":[");
         for (size_t i = 0; i < samples.size(); i++)
@@ -1637,7 +1691,28 @@ int main(int argc, char** argv)
     if (__sanitizer_set_death_callback)
         __sanitizer_set_death_callback(on_san_death);
     else
-        signal(SIGSEGV, on_signal);
+    {
+        // plain flavour: contain crashes (handlers on an alternate stack so stack overflows are survivable)
+        static char     altstack[1 << 16];
+        stack_t         st;
+        st.ss_sp    = altstack;
+        st.ss_size  = sizeof altstack;
+        st.ss_flags = 0;
+        sigaltstack(&st, nullptr);
+        struct sigaction sa;
+        memset(&sa, 0, sizeof sa);
+        sa.sa_handler = on_signal;
+        sa.sa_flags   = SA_ONSTACK | SA_NODEFER;
+        sigaction(SIGSEGV, &sa, nullptr);
+        sigaction(SIGBUS, &sa, nullptr);
+        sigaction(SIGABRT, &sa, nullptr);
+        sigaction(SIGALRM, &sa, nullptr);
+        if (a.mode != "replay" && a.mode != "preplay" && a.mode != "fillreplay" && a.mode != "fill")
+        {
+            Engine<Ad<ck, cappuccino::thread_safe::no>>::containment()  = true;
+            Engine<Ad<ck, cappuccino::thread_safe::yes>>::containment() = true;
+        }
+    }
     if (a.cfg.ts)
     {
         warm_up_other_instance<Ad<ck, cappuccino::thread_safe::yes>>();
